@@ -121,8 +121,16 @@ def exec_case(task, cd):
     text = concretize(c, slow, 't', marker, expected_dur(c))
     cd.write({'c.case': text})
     t0 = time.time()
-    r = inproc.run_main(['c.case'], cd)
+    r = inproc.run_main(['c.case'], cd, trace=True)
     wall = time.time() - t0
+    # the limit each process that runs the program was GIVEN when it started (hook `proc`, at the point of start)
+    given = []
+    for ev in r.get('trace') or []:
+        if ev.get('ev') == 'proc':
+            cmd = ev.get('cmd')
+            cmd = cmd if isinstance(cmd, str) else ' '.join(map(str, cmd))
+            if 'slow.sh t ' in cmd or cmd.endswith('slow.sh t'):
+                given.append(ev.get('timeout'))
     pidf = os.path.join(cd.out, 'pid-t')
     alive = None
     if os.path.exists(pidf):
@@ -134,7 +142,8 @@ def exec_case(task, cd):
             alive = False
     return dict(exit=r['exit'], exception=r['exception'], ident=(r['stdout'].splitlines() or [''])[0],
                 stderr=r['stderr'][:400], wall=round(wall, 2), marker=os.path.exists(marker),
-                sandboxes=cd.sandboxes(), child_started=os.path.exists(pidf), child_alive=alive, text=text)
+                sandboxes=cd.sandboxes(), child_started=os.path.exists(pidf), child_alive=alive, text=text,
+                given=given)
 
 
 def compare(c, o):
@@ -145,6 +154,10 @@ def compare(c, o):
         return 'NoEscapingException: %s' % str(o)[:200], False
     if not o['child_started']:
         return 'ChildStarted: the program was never started (concretisation?)', False
+    want = {'set': LIMIT_S, 'none': None, 'default': 60}[c['atStart']]
+    if o.get('given') and any(g != want for g in o['given']):
+        return 'TimeoutInForceAtStart: the process was started with limit %s, specification %s (%s)' % (
+            o['given'], want, c['atStart']), False
     if c['killed']:
         if o['exit'] != 128 or o['ident'] != 'HARD_ERROR':
             return 'StepIsHardError/KilledWhenOver: %s (exit %s) after %.1f s' % (o['ident'], o['exit'], o['wall']), False
@@ -179,13 +192,12 @@ def select_quick(cases, rnd):
         if c['hist'] in ('decl-then-set', 'set-decl-none'):
             if not c['env'] and c['child'] != 'stubborn':
                 out.append(c)
+        elif c['child'] == 'short':
+            out.append(c)       # cheap: every place x use x history, judged by the limit given at the start
         elif c['killed']:
             if c['hist'] == 'set-before' and (c['env'] or c['place'] != 'act') and not (c['env'] and c['place'] not in ('act', 'setup')):
                 out.append(c)
             elif c['hist'] == 'none-then-set' and c['use'] in ('run', 'actor-command-line') and not c['env']:
-                out.append(c)
-        elif c['child'] == 'short':
-            if c['hist'] == 'set-before' and not c['env']:
                 out.append(c)
         elif c['child'] == 'long' and not c['env'] and c['use'] in ('run', 'actor-command-line', 'text-matcher-run') \
                 and c['hist'] in ('set-after', 'set-then-none'):
@@ -222,6 +234,7 @@ def run(ctx):
             ctx.fail('%s %s' % (clause.split(':')[0], sig(c)), dict(kind='case', case=c, observed=o, clause=clause))
     ctx.cov['traces_validated_against_impl'] += len(cases)
     ctx.cov['replay'] = dict(cases=len(cases), killed_expected=sum(1 for c in cases if c['killed']),
+                             judged_by_limit_given_at_start=sum(1 for o in obs if o.get('given')),
                              retried_for_timing=len(retry), disagreements=bad,
                              max_wall_killed=max([o.get('wall', 0) for c, o in zip(cases, obs) if c['killed']] or [0]))
     # negative controls
